@@ -31,7 +31,7 @@ Definition msg_enc (m : msg) : list N :=
   | ApplyCmd c req => [6] ++ cmd_enc c ++ [opt req]
   | ApplyResp req false a _ => [7; req; 0; a]
   | ApplyResp req true a b => [7; req; 1; a; b]
-  | NextIdx nx r s => [8; nx; b2n r; b2n s]
+  | NextIdx t nx r s => [8; t; nx; b2n r; b2n s]
   end.
 
 Definition node_enc (n : node) : list N :=
